@@ -41,7 +41,7 @@ MANIFEST = {
 
 
 def plan(tier):
-    t = 300 if tier == "quick" else 2400
+    t = 300 if tier == "quick" else 900
     parts = [f"0:0,1:{k}" for k in range(14)] + [f"0:1,1:{o}" for o in range(9)]
     if tier == "thorough":
         parts = [f"0:0,1:{k}" for k in range(14)] + [f"0:1,1:{o},2:{k}" for o in range(9) for k in range(14)]
